@@ -990,8 +990,12 @@ bool OutputManager::has_unescaped_format_specifiers(const std::string &str) {
     debug_msg(DebugMsgId::PRINT_FORMAT_SPEC_CHECKING, str.c_str());
     for (size_t i = 0; i < str.length(); i++) {
         if (str[i] == '%') {
-            // \% でエスケープされているかチェック
-            if (i > 0 && str[i - 1] == '\\') {
+            // \% でエスケープされているかチェック（直前のバックスラッシュが奇数個）
+            size_t backslashes = 0;
+            while (backslashes < i && str[i - 1 - backslashes] == '\\') {
+                backslashes++;
+            }
+            if (backslashes % 2 == 1) {
                 continue; // エスケープされている
             }
             // 次の文字がフォーマット指定子かチェック
@@ -1031,8 +1035,12 @@ size_t OutputManager::count_format_specifiers(const std::string &str) {
     debug_msg(DebugMsgId::OUTPUT_FORMAT_COUNT, str.c_str());
     for (size_t i = 0; i < str.length(); i++) {
         if (str[i] == '%') {
-            // \% でエスケープされているかチェック
-            if (i > 0 && str[i - 1] == '\\') {
+            // \% でエスケープされているかチェック（直前のバックスラッシュが奇数個）
+            size_t backslashes = 0;
+            while (backslashes < i && str[i - 1 - backslashes] == '\\') {
+                backslashes++;
+            }
+            if (backslashes % 2 == 1) {
                 continue; // エスケープされている
             }
             if (i + 1 < str.length()) {
@@ -1462,6 +1470,13 @@ std::string OutputManager::render_formatted_string(
 
     for (size_t i = 0; i < format.length(); ++i) {
         char ch = format[i];
+
+        if (ch == '\\' && i + 1 < format.length() && format[i + 1] == '\\') {
+            // エスケープされたバックスラッシュは後続の % を隠さない
+            result += "\\\\";
+            ++i;
+            continue;
+        }
 
         if (ch == '\\' && i + 1 < format.length() && format[i + 1] == '%') {
             result += '%';
